@@ -460,14 +460,71 @@ func TabEscape(p *load.Program) *report.RuleResult {
 			missing(r, pr.fn, "function not found")
 			continue
 		}
-		rc := relationalConsts(fn)
+		// the function and the helpers it delegates to (an extracted loop parameterised by the quote
+		// character compares with the parameter: the constant is then the argument of the call)
+		rc := map[string]bool{}
+		for _, g := range helperClosure(p, fn, func(f *ssa.Function) bool {
+			return (f.Object() == nil || !f.Object().Exported()) && f.Name() != "writeEscapedChar"
+		}, 2) {
+			for k := range relationalConsts(g) {
+				rc[k] = true
+			}
+			if g == fn {
+				continue
+			}
+			// comparisons x == param in g, with the constants fn passes for that parameter
+			for _, b := range g.Blocks {
+				for _, in := range b.Instrs {
+					bo, ok := in.(*ssa.BinOp)
+					if !ok || bo.Op != token.EQL {
+						continue
+					}
+					for _, o := range []ssa.Value{bo.X, bo.Y} {
+						for d := 0; d < 2; d++ {
+							if cv, ok := o.(*ssa.Convert); ok {
+								o = cv.X
+							}
+						}
+						prm, ok := o.(*ssa.Parameter)
+						if !ok {
+							continue
+						}
+						idx := -1
+						for i, q := range g.Params {
+							if q == prm {
+								idx = i
+							}
+						}
+						for _, b2 := range fn.Blocks {
+							for _, in2 := range b2.Instrs {
+								if c, ok := in2.(ssa.CallInstruction); ok && load.Unwrap(c.Common().StaticCallee()) == g && idx >= 0 && idx < len(c.Common().Args) {
+									if k, ok := ssau.ConstInt(c.Common().Args[idx]); ok {
+										rc["eq:"+strconv.FormatInt(k, 10)] = true
+									}
+								}
+							}
+						}
+					}
+				}
+			}
+		}
 		need := []string{"lt:32", "eq:92", "eq:" + strconv.FormatInt(pr.delim, 10)}
 		if pr.clob {
 			need = append(need, "gt:127")
 		}
 		for _, nd := range need {
 			what := "writer: " + pr.fn + " escapes when " + nd
-			if rc[nd] || (strings.HasPrefix(nd, "eq:") && rc["ne:"+nd[3:]]) {
+			// the same boundary spelled from the other side: c < 32 escapes  ==  c > 31 does not
+			alt := ""
+			if k, err := strconv.ParseInt(nd[3:], 10, 64); err == nil {
+				switch nd[:3] {
+				case "lt:":
+					alt = "gt:" + strconv.FormatInt(k-1, 10)
+				case "gt:":
+					alt = "lt:" + strconv.FormatInt(k+1, 10)
+				}
+			}
+			if rc[nd] || (alt != "" && rc[alt]) || (strings.HasPrefix(nd, "eq:") && rc["ne:"+nd[3:]]) {
 				r.OK(p.FuncName(fn), p.Pos(fn.Pos()), what, "comparison present")
 			} else {
 				r.Bad(p.FuncName(fn), p.Pos(fn.Pos()), what, "the needs-escaping test lacks this case (found: "+strings.Join(sortedKeys(rc), " ")+")")
@@ -590,14 +647,29 @@ func TabLstFields(p *load.Program) *report.RuleResult {
 	if w == nil || rl == nil || ri == nil || is == nil {
 		return r
 	}
-	written := stringArgsOf(w, "NewSymbolToken")
+	// each of the three functions together with the steps extracted from it into unexported helpers
+	unexp := func(f *ssa.Function) bool {
+		return (f.Object() == nil || !f.Object().Exported()) && f != w && f != rl && f != ri && f != is && f.Name() != "NewSymbolToken"
+	}
+	written := map[string]bool{}
+	for _, g := range helperClosure(p, w, unexp, 2) {
+		for k := range stringArgsOf(g, "NewSymbolToken") {
+			written[k] = true
+		}
+	}
 	table := map[string]bool{}
-	for k := range constsComparedIn(rl, isStringConst) {
-		table[unquoteExact(k)] = true
+	for _, g := range helperClosure(p, rl, func(f *ssa.Function) bool {
+		return unexp(f) && ScopeLST.has(p, f) && f.Name() != "readImports" && f.Name() != "readSymbols"
+	}, 2) {
+		for k := range constsComparedIn(g, isStringConst) {
+			table[unquoteExact(k)] = true
+		}
 	}
 	imp := map[string]bool{}
-	for k := range constsComparedIn(ri, isStringConst) {
-		imp[unquoteExact(k)] = true
+	for _, g := range helperClosure(p, ri, func(f *ssa.Function) bool { return unexp(f) && ScopeLST.has(p, f) }, 2) {
+		for k := range constsComparedIn(g, isStringConst) {
+			imp[unquoteExact(k)] = true
+		}
 	}
 	delete(imp, "")
 	delete(imp, "$ion")
